@@ -1,4 +1,6 @@
 import InfluxQL.Lemmas.Priv
+import InfluxQL.Model.PrivOfStmt
+import InfluxQL.Lemmas.ParsedWF
 /-!
 # C19 — required privileges cover everything a statement touches
 
@@ -220,6 +222,101 @@ theorem admin_statements (st : Statement) (h : st.kind ∈ adminKinds) :
   unfold requiredPrivileges
   rw [hr]
   rfl
+
+/-! ## End to end from the statement text (`privOfText` = `ParseStatement` then `RequiredPrivileges`)
+
+The stream `priv.text` executes `privOfText` against `ParseStatement(text).RequiredPrivileges()`; the
+statements below carry the theorems above, proved for every `Statement` value, over to the composition. -/
+
+/-- The decidable test the oracle evaluates on every parsed statement implies `WellFormed`. -/
+theorem wellFormed_of_test (st : Statement) (h : st.privWellFormed = true) : WellFormed st := by
+  unfold Statement.privWellFormed at h
+  simp only [Bool.and_eq_true] at h
+  refine ⟨h.1, ?_, ?_⟩
+  · intro sel hs
+    rw [hs] at h
+    simp only [Bool.and_eq_true] at h
+    exact h.2.1
+  · intro sel hk hs
+    rw [hs] at h
+    simp only [Bool.and_eq_true] at h
+    cases st <;> simp [Statement.kind] at hk
+    exact h.2.2
+
+/-- The composition never loses the parser's answer: whatever the text, `privOfText` is the parser's
+error, or `RequiredPrivileges` of exactly the statement the parser built. -/
+theorem priv_text_compose (text : Str) (params : List (Str × BoundValue)) (tbl : List (Char × Char)) :
+    (∃ f, parseStatementText text params tbl = .error f ∧ privOfText text params tbl = .parseFail f) ∨
+    (∃ st, parseStatementText text params tbl = .ok st ∧
+      ((∃ l, requiredPrivileges st = .ok l ∧ privOfText text params tbl = .ok l) ∨
+       (∃ f, requiredPrivileges st = .error f ∧ privOfText text params tbl = .privFail f))) := by
+  unfold privOfText
+  cases hp : parseStatementText text params tbl with
+  | error f => exact Or.inl ⟨f, rfl, rfl⟩
+  | ok st =>
+    refine Or.inr ⟨st, rfl, ?_⟩
+    cases hr : requiredPrivileges st with
+    | error f => exact Or.inr ⟨f, rfl, by simp only [hr]⟩
+    | ok l => exact Or.inl ⟨l, rfl, by simp only [hr]⟩
+
+/-- **The parser's guarantees, proved**: every statement `ParseStatement` returns — for every text, bound
+parameters and lower table, through all 41 handlers — is `WellFormed` (every SELECT at any depth has at least
+one source; the SELECT of CREATE CONTINUOUS QUERY has an INTO target). The hypothesis of `nonempty_no_error`
+holds for everything that comes out of the parser (Lemmas/ParsedWF.lean: `parseStatementText_wf`). -/
+theorem parsed_wellFormed (text : Str) (params : List (Str × BoundValue)) (tbl : List (Char × Char)) (st : Statement)
+    (hp : parseStatementText text params tbl = .ok st) : WellFormed st :=
+  wellFormed_of_test st (parseStatementText_wf text params tbl st hp)
+
+/-- **C19 end to end (non-empty, no error), no hypothesis on the statement.** Every text the parser accepts
+gets a non-empty privilege list and no error — every text, every statement kind. In particular the nil
+dereference of `CreateContinuousQueryStatement.RequiredPrivileges` is unreachable through the parser. -/
+theorem priv_text_total (text : Str) (params : List (Str × BoundValue)) (tbl : List (Char × Char)) (st : Statement)
+    (hp : parseStatementText text params tbl = .ok st) :
+    ∃ l, privOfText text params tbl = .ok l ∧ l ≠ [] := by
+  obtain ⟨l, hl, hne⟩ := nonempty_no_error st (parsed_wellFormed text params tbl st hp)
+  refine ⟨l, ?_, hne⟩
+  unfold privOfText
+  rw [hp]
+  simp only [hl]
+
+/-- The same without naming the statement: `privOfText` is a parse failure or a non-empty list; it is never
+an error of `RequiredPrivileges` and never the empty list. -/
+theorem priv_text_outcomes (text : Str) (params : List (Str × BoundValue)) (tbl : List (Char × Char)) :
+    (∃ f, privOfText text params tbl = .parseFail f) ∨ (∃ l, privOfText text params tbl = .ok l ∧ l ≠ []) := by
+  cases hp : parseStatementText text params tbl with
+  | error f => exact Or.inl ⟨f, by unfold privOfText; rw [hp]⟩
+  | ok st => exact Or.inr (priv_text_total text params tbl st hp)
+
+/-- **C19 end to end (reads at every depth, write on the target).** When the text parses to a SELECT, or
+to EXPLAIN of a SELECT, the list computed from the text holds a read privilege on the database of every
+measurement of the parsed tree at any subquery depth, and a write privilege on the database of the INTO
+target. -/
+theorem priv_text_reads_writes (text : Str) (params : List (Str × BoundValue)) (tbl : List (Char × Char))
+    (s : SelectStmt) (a v : Bool)
+    (hp : parseStatementText text params tbl = .ok (.select s) ∨ parseStatementText text params tbl = .ok (.explain s a v)) :
+    ∃ l, privOfText text params tbl = .ok l ∧
+      (∀ m, m ∈ selectMeasurements s → readOn m.database ∈ l) ∧
+      (∀ t, s.target = some t → writeOn t.database ∈ l) := by
+  refine ⟨selectPrivs s, ?_, fun m hm => select_reads gen_sources_entry.1 gen_sources_entry.2 s m hm, ?_⟩
+  · unfold privOfText
+    rcases hp with hp | hp
+    · rw [hp]; simp only [select_privileges]
+    · rw [hp]; simp only [explain_same, select_privileges]
+  · intro t ht
+    have := select_writes_target s t ht
+    rw [select_privileges] at this
+    obtain ⟨l, hl, hm⟩ := this
+    cases hl
+    exact hm
+
+/-- **C19 end to end (admin).** A text that parses to one of the 23 administrative kinds requires
+exactly admin. -/
+theorem priv_text_admin (text : Str) (params : List (Str × BoundValue)) (tbl : List (Char × Char)) (st : Statement)
+    (hp : parseStatementText text params tbl = .ok st) (h : st.kind ∈ adminKinds) :
+    privOfText text params tbl = .ok [⟨true, [], .all⟩] := by
+  unfold privOfText
+  rw [hp]
+  simp only [admin_statements st h]
 
 /-! ## Non-vacuity: kernel-evaluated examples -/
 
